@@ -8,6 +8,8 @@ pub mod c03;
 pub mod c03_h2;
 pub mod c04;
 pub mod c05;
+pub mod c05_cluster;
+pub mod cluster_cli;
 pub mod c06;
 pub mod c07;
 pub mod c08;
